@@ -261,6 +261,13 @@ pub fn span_self_check(xot: &Xot, doc: Node, si: &SpanInfo, source: &str) -> Opt
         match si.get(key) {
             None => Err(("span-missing", item, format!("a {} in the parsed tree has no span", item))),
             Some(sp) => {
+                // the conversions of a span say the same as its fields
+                let r1 = sp.range();
+                let r2: std::ops::Range<usize> = (*sp).into();
+                let back = xot::Span::from(r1.clone());
+                if r1 != (sp.start..sp.end) || r2 != r1 || back.start != sp.start || back.end != sp.end {
+                    return Err(("span-conversion", item, format!("span {}..{}: range() = {:?}, Range::from = {:?}, Span::from(range) = {}..{}", sp.start, sp.end, r1, r2, back.start, back.end)));
+                }
                 if sp.start > sp.end || sp.end > len || !source.is_char_boundary(sp.start) || !source.is_char_boundary(sp.end) {
                     Err(("span-out-of-bounds", item, format!("span {}..{} of a {} is outside the source (len {}) or not on character boundaries", sp.start, sp.end, item, len)))
                 } else {
